@@ -367,11 +367,30 @@ func (c *FnCtx) sevBool(sc *specCtx, e *SExpr) *Term {
 func (c *FnCtx) sevBinary(sc *specCtx, e *SExpr) *Term {
 	switch e.Name {
 	case "&&":
-		return mkAnd(c.sevBool(sc, e.Args[0]), c.sevBool(sc, e.Args[1]))
+		a := c.sevBool(sc, e.Args[0])
+		if isLit(a, "false") {
+			return tFalse // short circuit (the right operand may name a $ret that does not exist on this path)
+		}
+		return mkAnd(a, c.sevBool(sc, e.Args[1]))
 	case "||":
 		return mkOr(c.sevBool(sc, e.Args[0]), c.sevBool(sc, e.Args[1]))
 	case "==>":
-		return mkImplies(c.sevBool(sc, e.Args[0]), c.sevBool(sc, e.Args[1]))
+		a := c.sevBool(sc, e.Args[0])
+		// a consequent that names the result of a call site not executed on this path ($ret) counts as false: the
+		// implication then holds exactly where its antecedent (typically with $called(...)) is false
+		b := func() (b *Term) {
+			defer func() {
+				if r := recover(); r != nil {
+					if _, ok := r.(retMissing); ok {
+						b = tFalse
+						return
+					}
+					panic(r)
+				}
+			}()
+			return c.sevBool(sc, e.Args[1])
+		}()
+		return mkImplies(a, b)
 	case "<==>":
 		return mkEq(c.sevBool(sc, e.Args[0]), c.sevBool(sc, e.Args[1]))
 	}
@@ -543,6 +562,15 @@ func (c *FnCtx) sevCall(sc *specCtx, e *SExpr) *Term {
 		case "seq":
 			// seq(x): the sequence view of an iterator or slice (identity)
 			return c.sev(sc, args[0])
+		case "string":
+			// string(b): the conversion of a byte slice, the same uninterpreted function the code's conversion is
+			x := c.sev(sc, args[0])
+			if x.Sort == SStr {
+				return x
+			}
+			fn := "conv_" + mangleSort(x.Sort) + "_to_" + mangleSort(SStr)
+			c.smt.fun(fn, []string{x.Sort}, SStr)
+			return mk(fn, SStr, x).withGo(types.Typ[types.String])
 		case "dyntype":
 			return mk("dyntype", "TypeTag", c.sev(sc, args[0]))
 		case "unbox":
